@@ -12,6 +12,8 @@ Input (JSON):
                              reverses it.  An explicit list may be partial (controller started on part of a phase).
    "dyn": {"s1": {"event": "e1"|null, "new_deps": [ids]|null}, ...}   what exec of that statement returns
    "raise_at": id|null       exec of this statement raises in the FIRST step (step cut short)
+   "twin": null|"before"|"after"   the method has a second phase (listed before / after this one) with the same statement ids and
+                             reversed edges; it is never run
    "steps": 1|2}
 
 Clauses checked on the log of callbacks of each step:
@@ -53,6 +55,22 @@ class Cut(Exception):
 
 class Runaway(Exception):
     """the controller keeps calling back far beyond one visit per statement (reported as a `once` violation)"""
+
+
+def build_twin(inp):
+    """another phase of the same method that uses the SAME statement ids (ids need only be unique within a phase) with every
+    dependency edge reversed"""
+    ids = [s["id"] for s in inp["stmts"]]
+    rev = {i: [] for i in ids}
+    for s in inp["stmts"]:
+        for d in s["deps"]:
+            rev[d].append(s["id"])
+    stmts = []
+    for i in ids:
+        st = lang.Assign(assignee="twin_" + i, assignee_subscript=(), expression=2, condition=True, id=i,
+                         depends_on=frozenset(rev[i]))
+        stmts.append(st)
+    return lang.ExecutionPhase("ph2", "ph2", stmts)
 
 
 def build_phase(inp):
@@ -335,7 +353,12 @@ def evaluate(inp):
         roots = sorted(real_roots, reverse=bool(inp.get("roots_reversed")))
     else:
         roots = list(inp["roots"])
-    code = lang.DAGCode.from_phases_list([phase], "ph")
+    phases = [phase]
+    if inp.get("twin") == "before":
+        phases = [build_twin(inp), phase]
+    elif inp.get("twin") == "after":
+        phases = [phase, build_twin(inp)]
+    code = lang.DAGCode.from_phases_list(phases, "ph")
     ctrl = lang.ExecutionController(code)
     logs = []
     for step in range(int(inp.get("steps", 1))):
@@ -445,6 +468,13 @@ def exhaustive_inputs(nmax):
                     for rd in (False, True):
                         yield "dynamic", mk_input(deps, NAMES, None, rd, False,
                                                   dyn={NAMES[x]: {"event": "ev", "new_deps": [NAMES[k] for k in q]}})
+            # the method has a second phase that reuses the ids (statement lookup must stay within the running phase)
+            if n <= 3 and any(deps):
+                for tw in ("before", "after"):
+                    yield "static", mk_input(deps, NAMES, None, False, False, twin=tw, steps=2)
+                    for x in range(n):
+                        yield "dynamic", mk_input(deps, NAMES, None, False, False, twin=tw,
+                                                  dyn={NAMES[x]: {"event": "ev", "new_deps": [NAMES[(x + 1) % n]]}})
             # one dynamic request, controller started on part of the phase
             for r0 in range(n):
                 clo = closure({i: deps[i] for i in range(n)}, [r0])
